@@ -49,7 +49,7 @@ func init() {
 		Exec:      exec,
 		Required: []string{"api-wts", "api-let", "api-go", "bignum", "ratio", "single-float", "double-float", "long-float",
 			"radix-marker", "symbol-piped", "string-escaped", "char-named", "char-nonascii", "case-converted",
-			"pretty-wrapped", "pretty-vs-flat", "dotted", "vector", "array-multidim", "wire", "masked-by-leaf", "type-of-compared"},
+			"pretty-wrapped", "pretty-vs-flat", "dotted", "vector", "array-multidim", "wire", "type-of-compared"},
 		Bound:    bound,
 		Selftest: selftest,
 	})
